@@ -529,6 +529,28 @@ def illcond(s, x, w):
         return False
 
 
+def weak_functions(s, x, w):
+    """Measured: basis functions (1-based rank on the current masked knots) that see data but whose influence
+    sum w B^2 is positive and below 1e-6 of the mean weight (the code's own threshold is 1e-10)."""
+    try:
+        with np.errstate(all='ignore'):
+            k = int(s.nord)
+            mk = np.array(s.mask, dtype=bool)
+            tm = np.asarray(s.breakpoints, dtype='d')[mk]
+            if tm.size < 2 * k or np.any(np.diff(tm) <= 0):
+                return []
+            x = np.asarray(x, dtype='d')
+            inr = (x >= tm[k - 1]) & (x <= tm[tm.size - k]) & (w > 0) & np.isfinite(w)
+            if not inr.any():
+                return []
+            A = design_matrix(tm, k, x[inr])
+            infl = (A * A * w[inr][:, None]).sum(axis=0)
+            thr = 1e-6 * w[inr].sum() / max(1, tm.size - k)
+            return [int(j) + 1 for j in np.nonzero((infl > 0) & (infl <= thr))[0]]
+    except Exception:
+        return []
+
+
 def masked_record(law, nord, S, pc, maskgood, st, finite, meas, src, data=None, ill=None, gs=None):
     """ill: illcond() of the object BEFORE the fit (the mask a -1 leaves behind is not the one the fit was made on).
     gs: (global state before, after) the fit."""
@@ -889,6 +911,7 @@ def loop_history(rng, notes, big):
     mrecs = []
     for _ in range(S):
         ill = illcond(s, x, w)
+        weak = weak_functions(s, x, w)
         o = call_fit(s, x, y, w)
         if not o['exc'] and not o['before'].all():
             meas = masked_measure(s, x, y, w, o['yfit'], rng, poly=pf) if o['st'] == 0 else \
@@ -900,7 +923,8 @@ def loop_history(rng, notes, big):
             events.append({'a': 'raise', 'exc': o['exc'], 'mask': good(o['before'])})
             break
         events.append({'a': 'fit', 'mask': good(o['before']), 'st': o['st'] if isinstance(o['st'], int) else 99,
-                       'after': good(o['after']), 'finite': o['finite'], 'illcond': ill, 'gsb': o['gsb'], 'gsa': o['gsa'], 'argsok': True})
+                       'after': good(o['after']), 'finite': o['finite'], 'illcond': ill, 'gsb': o['gsb'], 'gsa': o['gsa'], 'argsok': True,
+                       'weak': weak})
         if o['st'] in (0, -2) or not isinstance(o['st'], int):
             break
     return {'nord': nord, 'S': S, 'pc': pc, 'maxfits': S, 'events': events, 'src': 'loop/' + style,
@@ -917,6 +941,7 @@ def run_phases(nord, S, phases, rng, notes, src):
             events.append({'a': 'data', 'pc': list(pc), 'more': S})
         for _ in range(S):
             ill = illcond(s, x, w)
+            weak = weak_functions(s, x, w)
             o = call_fit(s, x, y, w)
             if o['exc']:
                 events.append({'a': 'raise', 'exc': o['exc'], 'mask': good(o['before'])})
@@ -927,7 +952,7 @@ def run_phases(nord, S, phases, rng, notes, src):
                                            {'x': x.tolist(), 'y': y.tolist(), 'w': w.tolist()}, ill=ill, gs=(o['gsb'], o['gsa'])))
             events.append({'a': 'fit', 'mask': good(o['before']), 'st': o['st'] if isinstance(o['st'], int) else 99,
                            'after': good(o['after']), 'finite': o['finite'], 'illcond': ill, 'gsb': o['gsb'], 'gsa': o['gsa'],
-                           'argsok': True})
+                           'argsok': True, 'weak': weak})
             if o['st'] in (0, -2) or not isinstance(o['st'], int):
                 break
     return events, mrecs
@@ -936,20 +961,22 @@ def run_phases(nord, S, phases, rng, notes, src):
 def multidata_history(rng, notes, big):
     """One object, data that change between fits: a gap wider than the spacing, then a SECOND gap to the right / to the
     left of / overlapping the region already masked (weights set to zero or points removed), then all data back."""
-    nord = rng.choice([1, 2, 3, 3, 4, 4, 5, 6])
-    S = rng.randint(8, 18 if big else 14)
+    nord = rng.choice([1, 2, 2, 3, 3, 4, 4, 5, 6])
     where = rng.choice(['right', 'right', 'left', 'overlap', 'adjacent'])
-    la = rng.randint(2, 4)
-    a0 = rng.randint(1, S - 2 * la - 3) if where != 'left' else rng.randint(la + 3, S - la - 1)
-    lb = rng.randint(2, 4)
-    if where == 'right':
-        b0 = rng.randint(a0 + la + 1, S - lb - 1) if a0 + la + 1 <= S - lb - 1 else a0 + la + 1
-    elif where == 'left':
+    # a gap is at least as wide as the support of a basis function (nord cells), so that some function sees no datum
+    la, lb = max(2, nord) + rng.randint(0, 2), max(2, nord) + rng.randint(0, 1)
+    S = la + lb + rng.randint(5, 12 if big else 8)
+    if where == 'left':
+        a0 = rng.randint(min(lb + 2, S - la - 1), S - la - 1)
         b0 = rng.randint(0, max(0, a0 - lb - 1))
-    elif where == 'overlap':
-        b0 = a0 + la - 1
     else:
-        b0 = a0 + la
+        a0 = rng.randint(1, max(1, S - la - lb - 2))
+        if where == 'right':
+            b0 = min(S - lb, a0 + la + 1 + rng.randint(0, max(0, S - lb - 1 - (a0 + la + 1))))
+        elif where == 'overlap':
+            b0 = a0 + la - 1
+        else:
+            b0 = a0 + la
     gapA = set(range(a0, min(S, a0 + la)))
     gapB = set(c for c in range(b0, min(S, b0 + lb)))
 
@@ -990,6 +1017,7 @@ class Recorder(object):
         def fit(sself, xdata, ydata, invvar, x2=None):
             before = np.array(sself.mask, dtype=bool).copy()
             ill = illcond(sself, np.asarray(xdata, dtype='d'), np.asarray(invvar, dtype='d'))
+            weak = weak_functions(sself, xdata, np.asarray(invvar, dtype='d'))
             argsok = True
             if rec.expect is not None:
                 # abstraction: the fit is handed the caller's triples (weights clipped at 0), in non-decreasing x
@@ -1010,7 +1038,7 @@ class Recorder(object):
             fin = bool(np.all(np.isfinite(np.asarray(sself.coeff, dtype='d'))) and np.all(np.isfinite(np.asarray(yfit, dtype='d'))))
             rec.events.append({'a': 'fit', 'mask': good(before), 'after': good(np.array(sself.mask, dtype=bool)),
                                'st': int(st) if isinstance(st, (int, np.integer)) else 99, 'finite': fin, 'illcond': ill,
-                               'gsb': g.b, 'gsa': g.a, 'argsok': argsok})
+                               'gsb': g.b, 'gsa': g.a, 'argsok': argsok, 'weak': weak})
             if rec.rng is not None and (rec.always or not before.all()) and x2 is None:
                 st0 = isinstance(st, (int, np.integer)) and int(st) == 0
                 xd, yd, wd = np.asarray(xdata), np.asarray(ydata, dtype='d'), np.asarray(invvar, dtype='d')
@@ -1644,7 +1672,7 @@ def run_records(ctx, notes):
         fals.append(r2)
     core.binding_selftest(ctx, 'Trace_BSplineFit', fals, 'records')
     # the optimality laws on objects with dropped breakpoints must not be vacuous
-    mcomp = {'machine': 0, 'loop': 0, 'iterfit': 0}
+    mcomp = {'machine': 0, 'loop': 0, 'iterfit': 0, 'multi': 0}
     stats['intx_law_records'] = sum(1 for r0 in recs if r0.get('_xdtype', 'float64')[0] in 'iu')
     stats['intx_law_records_optimum_compared'] = sum(1 for k, r0 in enumerate(recs) if r0.get('_xdtype', 'float64')[0] in 'iu' and k in compared)
     stats['intx_iterfit_fits_optimum_compared'] = sum(1 for k, r0 in enumerate(recs) if r0.get('law') == 'intx' and k in compared)
@@ -1660,6 +1688,7 @@ def run_records(ctx, notes):
     stats['masked_optimum_compared'] = mcomp
     need = {'machine': 150, 'loop': 10, 'iterfit': 10} if ctx.quick else {'machine': 1500, 'loop': 300, 'iterfit': 300}
     mcomp = dict(mcomp, sparse=stats['sparse_law_records_optimum_compared'])
+    need['multi'] = 60 if ctx.quick else 900
     need['sparse'] = 15 if ctx.quick else 300
     mcomp['intx-records'] = stats['intx_law_records_optimum_compared']
     mcomp['intx-iterfit'] = stats['intx_iterfit_fits_optimum_compared']
@@ -1799,12 +1828,13 @@ def replay(ctx, case):
             ev = []
             for _ in range(h['S']):
                 ill = illcond(s, np.array(d['x']), np.array(d['w']))
+                weak = weak_functions(s, np.array(d['x']), np.array(d['w']))
                 o = call_fit(s, np.array(d['x']), np.array(d['y']), np.array(d['w']))
                 if o['exc']:
                     ev.append({'a': 'raise', 'exc': o['exc'], 'mask': good(o['before'])})
                     break
                 ev.append({'a': 'fit', 'mask': good(o['before']), 'st': o['st'], 'after': good(o['after']), 'finite': o['finite'],
-                           'illcond': ill, 'gsb': o['gsb'], 'gsa': o['gsa'], 'argsok': True})
+                           'illcond': ill, 'gsb': o['gsb'], 'gsa': o['gsa'], 'argsok': True, 'weak': weak})
                 if o['st'] in (0, -2):
                     break
             print('events now:', ev)
